@@ -88,7 +88,19 @@ def one_case(run, seed, idx, mods):
     S = gen_stretch(r, mag)
     refkind = "grain" if r.random() < 0.4 else "cell"
     reuse = bool(rng(seed, "C10", "scratch", idx).random() < 0.3)     # own stream: independent of kind/mag/rotation
-    B0 = unitcell.unitcell(cell0).B          # reference exactly as the library builds it
+    # cells that are almost, but not exactly, right-angled (the fitted cell of a nearly cubic grain used as reference):
+    # own stream, all cell kinds
+    rn = rng(seed, "C10", "near90", idx)
+    if rn.random() < 0.15:
+        dev = [float(rn.choice([-1, 1]) * 10 ** rn.uniform(-5.5, -3.05)) for _ in range(3)]
+        if rn.random() < 0.3:
+            dev[int(rn.integers(3))] = 0.0
+        cell0 = [float(c) for c in cell0[:3]] + [90.0 + d for d in dev]
+        kind = "triclinic-near-90"
+        run.count("reference_cells_within_1e-3_degree_of_right_angles")
+    # the reference lattice is built by the harness from the cell parameters (Cholesky factor of the reciprocal metric =
+    # Busing-Levy B), not taken from the library: "reference given as a cell" means THAT cell
+    B0 = xtal.Bmat(cell0)
     if refkind == "grain":
         U0 = xtal.random_rotation(r)
         ubi0 = np.linalg.inv(U0 @ B0)
